@@ -6,7 +6,7 @@
     Black–Scholes `bs_value` with dividend yield `r − (meanGeo + varGeo/2)/T` and volatility `√(varGeo/T)`; `varGeo` tends to
     the continuous-averaging variance `σ²(t0 + (T − t0)/3)` as the number of observations → ∞;
   * FX double digital / FX digital: additivity over adjacent ranges, "= difference of two digital puts" for the foreign
-    premium, the exact mismatch factor for the domestic premium (finding), digital call + put = unconditional payment;
+    premium AND for the domestic premium (after the repair of the domestic-discount finding), digital call + put = unconditional payment;
   * FX lookbacks (`FXFixedLookbackOption.value`, `FXFloatLookbackOption.value`, own copies of the formulas): strike vs running-extreme
     branch identities, fixed − floating parities (call: every branch; put: `…_partial` + the exact truncation gap), and
     `*_shape`: special-case (`s0 == extreme`) and general branch are one expression — the same statements as `Props/C11f`
@@ -166,14 +166,13 @@ theorem fx_double_digital_for_eq_digital_puts (td te s dd fd v nt K1 K2 : ℝ) (
   fd_simp []
   congr 1; ring
 
-/-- domestic premium: the double digital is NOT the difference of the two digital puts — it is that difference with the
-domestic discount factor replaced by the foreign one: `DD · e^{−r_d t} = e^{−r_f t} · (P(K2) − P(K1))`
-(finding `C11/fx-double-digital-domestic-payout-foreign-discount`; with the proposed fix both exponentials are `e^{−r_d t}`). -/
-theorem fx_double_digital_dom_vs_digital_puts (td te s dd fd v nt K1 K2 : ℝ) (pf : Int) (hpf : pf ≠ 1) :
-    (fx_double_digital_value td te s dd fd pf 1 v nt K1 K2).map (· * Real.exp (-(-Real.log dd / max td 1e-10) * max td 1e-10))
-      = (subE (fx_digital_value td te s dd fd pf 1 v nt K2 6) (fx_digital_value td te s dd fd pf 1 v nt K1 6)).map
-          (· * Real.exp (-(-Real.log fd / max td 1e-10) * max td 1e-10)) := by
-  fd_simp [hpf, Except.map]
+/-- domestic premium: the double digital IS the difference of the two domestic digital puts of `FXDigitalOption` (as documented),
+both discounted with the DOMESTIC rate.  (Before the repair of finding `C11/fx-double-digital-domestic-payout-foreign-discount` the
+double digital carried `e^{−r_f t}` and this theorem does not build on that source.) -/
+theorem fx_double_digital_dom_eq_digital_puts (td te s dd fd v nt K1 K2 : ℝ) (pf : Int) (hpf : pf ≠ 1) :
+    fx_double_digital_value td te s dd fd pf 1 v nt K1 K2
+      = subE (fx_digital_value td te s dd fd pf 1 v nt K2 6) (fx_digital_value td te s dd fd pf 1 v nt K1 6) := by
+  fd_simp [hpf]
   congr 1; ring
 
 /-- `d2` of the FX digital formulas as coded (drift over `t_del`, volatility over `t_exp`) -/
